@@ -838,6 +838,59 @@ func specialStreams(c *specialCtx) {
 	c.parallel(c.n/10+8, func(i int, d *driver) {
 		readerBufferCheck(c, d, newPrng(uint64(c.seed)*77+uint64(i)), i)
 	})
+	// a tee installed, replaced or removed while a Read is blocked in the backend: the bytes of
+	// that read go to the writer installed when they are read (the Read may have been waiting
+	// for as long as the application was silent)
+	for round := 0; round < 20; round++ {
+		gate := &gateBackend{ch: make(chan []byte)}
+		tee := te.NewTeeBackend(gate)
+		sinks := []*teeSink{{}, {}, nil, {}}
+		want := make([]string, len(sinks))
+		bad := false
+		for k, sk := range sinks {
+			type res struct {
+				n   int
+				err error
+			}
+			got := make(chan res, 1)
+			buf := make([]byte, 64)
+			w0 := gate.waits.Load()
+			go func() { n, err := tee.Read(buf); got <- res{n, err} }()
+			for deadline := time.Now().Add(scaled(10 * time.Second)); time.Now().Before(deadline) && !(gate.waits.Load() > w0 && gate.waiting.Load()); {
+				time.Sleep(50 * time.Microsecond)
+			}
+			if sk == nil {
+				tee.SetTee(nil)
+			} else {
+				tee.SetTee(sk)
+			}
+			msg := fmt.Sprintf("chunk-%d-%d", round, k)
+			gate.ch <- []byte(msg)
+			select {
+			case r := <-got:
+				if r.n != len(msg) {
+					bad = true
+				}
+			case <-time.After(scaled(10 * time.Second)):
+				c.violation("tee-switch", "TeeBackend.Read did not return after its backend delivered data", nil)
+				return
+			}
+			if sk != nil {
+				want[k] = msg
+			}
+		}
+		for k, sk := range sinks {
+			if sk != nil && sk.buf.String() != want[k] {
+				c.violation("tee-switch", fmt.Sprintf("writer %d, installed while a Read was waiting in the backend, received %q; the bytes read while it was installed are %q", k, sk.buf.String(), want[k]),
+					map[string]any{"round": round})
+				bad = true
+			}
+		}
+		c.count(fmt.Sprint("tee-switch", round))
+		if bad {
+			break
+		}
+	}
 	{
 		be := &scriptBackend{}
 		vt := te.VerifNew(nil, be, te.TextReadModeRune, false)
@@ -954,7 +1007,7 @@ func specialLocks(c *specialCtx) {
 						code = -1
 					}
 					return out.String(), false, code
-				case <-time.After(60 * time.Second):
+				case <-time.After(scaled(60 * time.Second)):
 					_ = cmd.Process.Kill()
 					<-done
 					return out.String(), true, -1
@@ -1136,7 +1189,7 @@ func lockScenario(seed int64) int {
 	// 1. the loop releases the lock while it waits inside an escape sequence
 	for _, part := range []string{"ab\x1b", "[", "3", "1", ";", "m", "x\x1b]0;ti", "tle", "\x07", "\x1bP12", "\x1b\\", "\xf0\x9f", "\x90\xb9"} {
 		_, _ = pw.Write([]byte(part))
-		deadline := time.Now().Add(3 * time.Second)
+		deadline := time.Now().Add(scaled(3 * time.Second))
 		got := false
 		for time.Now().Before(deadline) {
 			if vt.TryLock() {
@@ -1155,7 +1208,7 @@ func lockScenario(seed int64) int {
 	// not exist) must not leave the lock held
 	{
 		free := func() bool {
-			for deadline := time.Now().Add(3 * time.Second); time.Now().Before(deadline); time.Sleep(200 * time.Microsecond) {
+			for deadline := time.Now().Add(scaled(3 * time.Second)); time.Now().Before(deadline); time.Sleep(200 * time.Microsecond) {
 				if vt.TryLock() {
 					return true
 				}
@@ -1186,7 +1239,7 @@ func lockScenario(seed int64) int {
 		go func() { _ = term.Resize(22, 7); close(resized) }()
 		select {
 		case <-resized:
-		case <-time.After(8 * time.Second):
+		case <-time.After(scaled(8 * time.Second)):
 			fmt.Println("deadlock: Resize did not return while the backend's SetSize was feeding the terminal (lock held across the backend call)")
 			return 10
 		}
@@ -1345,7 +1398,7 @@ func lockScenario(seed int64) int {
 	wg.Wait()
 	select {
 	case <-attachDone:
-	case <-time.After(8 * time.Second):
+	case <-time.After(scaled(8 * time.Second)):
 		fmt.Printf("deadlock: TTYFrontend.Attach did not return (%d attaches completed) while the read loop was delivering callbacks\n", attaches.Load())
 		return 7
 	}
@@ -1365,7 +1418,7 @@ func lockScenario(seed int64) int {
 		go func() { _, _ = pw.Write([]byte("0123456789")) }()
 		select {
 		case <-recDone:
-		case <-time.After(8 * time.Second):
+		case <-time.After(scaled(8 * time.Second)):
 			fmt.Println("deadlock: SetTee(nil) from the consumer of a tee pipe did not return while a tee write was in flight")
 			return 8
 		}
@@ -1374,7 +1427,7 @@ func lockScenario(seed int64) int {
 		go func() { _, _ = pw.Write([]byte("abcdefghij")) }()
 		select {
 		case <-selfDone:
-		case <-time.After(8 * time.Second):
+		case <-time.After(scaled(8 * time.Second)):
 			fmt.Println("deadlock: a tee writer calling SetTee from its own Write did not return")
 			return 9
 		}
@@ -1382,7 +1435,7 @@ func lockScenario(seed int64) int {
 	pw.Close()
 	select {
 	case <-done:
-	case <-time.After(10 * time.Second):
+	case <-time.After(scaled(10 * time.Second)):
 		fmt.Println("read loop did not end after the backend was closed")
 		return 4
 	}
@@ -1603,12 +1656,12 @@ func specialResizeIdle(c *specialCtx) {
 			close(be.ch)
 			select {
 			case <-done:
-			case <-time.After(10 * time.Second):
+			case <-time.After(scaled(10 * time.Second)):
 			}
 		}
 		// idle(k): the loop has started its (k+1)-th wait, i.e. everything sent so far is consumed
 		idle := func(after int64) bool {
-			deadline := time.Now().Add(10 * time.Second)
+			deadline := time.Now().Add(scaled(10 * time.Second))
 			for time.Now().Before(deadline) {
 				if be.waits.Load() > after && be.waiting.Load() {
 					return true
